@@ -173,6 +173,14 @@ def rule_V1(ctx, R):
     return res
 
 
+def _tries_anything(ctx, f):
+    """does any path of f perform a try-acquisition (or fail closed: unknown counts as yes)?"""
+    paths, err, I = ctx.paths(f)
+    if err or not paths:
+        return True
+    return any(e["k"] == "TRY" for p in paths for e in p.events) or not any(e["k"] == "ACQ" for p in paths for e in p.events)
+
+
 def rule_E3(ctx, R):
     res = RuleResult("E3", "try never waits: no TRY-role API, raw_try_* impl or ordered_try_* helper reaches a blocking raw "
                            "acquisition or a blocking HL acquisition")
@@ -187,6 +195,8 @@ def rule_E3(ctx, R):
             continue
         ti = f.get("trait_item") or ""
         if "TRY" in R.roles(f) or ti in ("lockable::RawLock::raw_try_write", "lockable::RawLock::raw_try_read"):
+            if "TRY" in R.roles(f) and not _tries_anything(ctx, f):
+                continue      # hands the key back for another reason (e.g. a rejected input) and never tries a lock: not try-style
             fns.append(f)     # (crate-private helpers of these are covered through the call graph)
     # helper functions returning bool that are built from HL tries count too (discovered, not named)
     for f in fns:
